@@ -111,6 +111,23 @@ func (s *QueryPlanStep) setQuery() *QueryPlanStep {
 
 func getVariablesList(s ast.SelectionSet) []string {
 	var args []string
+	// directives of inline fragments, f.e. ... on User @include(if: $flag) { ... }
+	var walkFragments func(ss ast.SelectionSet)
+	walkFragments = func(ss ast.SelectionSet) {
+		for _, sel := range ss {
+			if frag, ok := sel.(*ast.InlineFragment); ok {
+				for _, d := range frag.Directives {
+					for _, a := range d.Arguments {
+						if a.Value != nil && a.Value.Kind == ast.Variable {
+							args = append(args, a.Value.Raw)
+						}
+					}
+				}
+				walkFragments(frag.SelectionSet)
+			}
+		}
+	}
+	walkFragments(s)
 	for _, f := range common.SelectionSetToFields(s, nil) {
 		for _, a := range f.Arguments {
 			if len(a.Value.Children) > 0 {
